@@ -405,6 +405,28 @@ def dag_shapes(n):
     return out
 
 
+def dag_seeded(n, seed, idx):
+    """A seed-selected larger DAG (5..7 stages) with mixed join types; VERIF_SEED chooses WHICH
+    instances are explored - each selected instance is itself explored exhaustively."""
+    import random
+
+    rnd = random.Random(seed * 1000 + idx * 17 + n)
+    refs = [chr(ord("A") + i) for i in range(n)]
+    st = []
+    for j, r in enumerate(refs):
+        k = 0 if j == 0 else rnd.choice([1, 1, 2, 2, 3])
+        deps = tuple(sorted(rnd.sample(refs[:j], min(k, j))))
+        join, thr = "AND", 0
+        if len(deps) >= 2:
+            join = rnd.choice(["AND", "AND", "DISCRIMINATOR", "N_OF_M", "MULTI_MERGE"])
+            thr = rnd.randint(1, len(deps)) if join == "N_OF_M" else 0
+        tasks = None
+        if j and rnd.random() < 0.2:
+            tasks = [("t", {"kind": "terminal"})]
+        st.append(St(r, deps, tasks=tasks, join=join, threshold=thr))
+    return Workload(f"dag{n}_seed{seed}_{idx}", st, klass="racy")
+
+
 def dag_workloads(max_n=4, halts=True):
     res = []
     for n in range(1, max_n + 1):
